@@ -427,7 +427,7 @@ fn gen_state(r: &mut Rng, i: u64) -> Vec<String> {
     }
     v.push(init);
     if r.chance(2, 3) {
-        v.push("check".to_string());
+        { let k = v.len(); v.push(format!("check\t{}.{}", i, k)); }
     }
     let n = r.range(2, 8);
     for _ in 0..n {
@@ -441,11 +441,11 @@ fn gen_state(r: &mut Rng, i: u64) -> Vec<String> {
         };
         v.push(line);
         if r.chance(2, 3) {
-            v.push("check".to_string());
+            { let k = v.len(); v.push(format!("check\t{}.{}", i, k)); }
         }
     }
-    if v.last().map(|s| s.as_str()) != Some("check") {
-        v.push("check".to_string());
+    if !v.last().map(|s| s.starts_with("check")).unwrap_or(false) {
+        { let k = v.len(); v.push(format!("check\t{}.{}", i, k)); }
     }
     v
 }
@@ -469,13 +469,25 @@ fn effective(lsp: &Lsp, proj: &Proj, file: &str) -> Option<String> {
     .unwrap_or(Some("<panic>".to_string()))
 }
 
-/// everything a client can observe for one server
+/// everything a client can observe for one server: effective contents first, then the
+/// diagnostics pass, then the per-file requests
 fn observe(lsp: &Lsp, proj: &Proj) -> Vec<(String, String)> {
-    let mut out = vec![("diag".to_string(), diagnostics(&lsp.compiler_state.db))];
+    let mut out = vec![];
+    let mut effs = vec![];
     for f in FILES {
-        let uri = proj.uri(f);
         let eff = effective(lsp, proj, f);
         out.push((format!("eff:{}", f), eff.clone().unwrap_or("~".to_string())));
+        effs.push(eff);
+    }
+    let d = diagnostics(&lsp.compiler_state.db);
+    let dead = d == "panic";
+    out.push(("diag".to_string(), d));
+    if dead {
+        // the diagnostics pass panicked inside a memoised function: a real server is gone
+        return out;
+    }
+    for (f, eff) in FILES.iter().zip(effs) {
+        let uri = proj.uri(f);
         // a semantic-token request for a file the server does not know panics inside the memoised
         // function ("Expected source to exist"), which kills a real server; not asked here
         if eff.is_some() {
@@ -505,6 +517,9 @@ fn observe(lsp: &Lsp, proj: &Proj) -> Vec<(String, String)> {
 }
 
 fn run_state(f: &[&str]) -> String {
+    if std::env::var("HX_DEBUG").is_ok() {
+        std::panic::set_hook(Box::new(|info| eprintln!("PANIC {}", info)));
+    }
     ST.with(|cell| {
         let mut cell = cell.borrow_mut();
         if cell.is_none() {
@@ -611,6 +626,19 @@ fn run_state(f: &[&str]) -> String {
                 }
                 let fr = observe(&fresh, &st.proj);
                 std::mem::forget(fresh);
+                // a panic in the running server (it would have died): report it and restart it
+                let panicked: Vec<String> = {
+                    let mut v: Vec<String> = vec![];
+                    for (k, x) in &inc {
+                        if x == "panic" || x == "<panic>" {
+                            let kind = k.split(':').next().unwrap().to_string();
+                            if !v.contains(&kind) {
+                                v.push(kind);
+                            }
+                        }
+                    }
+                    v
+                };
                 let mut eff = String::from("eff");
                 for (k, v) in &inc {
                     if let Some(file) = k.strip_prefix("eff:") {
@@ -640,7 +668,7 @@ fn run_state(f: &[&str]) -> String {
                     // the same diagnostics, attributed to another of several identical files
                     nondet = true;
                 }
-                if !nondet && !kinds.is_empty() && !kinds.contains(&"eff".to_string()) {
+                if !nondet && panicked.is_empty() && !kinds.is_empty() && !kinds.contains(&"eff".to_string()) {
                     // Two servers started on identical contents can disagree with each other (which
                     // of two equal declarations is reported depends on hash-map order).  If the
                     // running server agrees with *some* fresh server, that is what happened.
@@ -663,6 +691,22 @@ fn run_state(f: &[&str]) -> String {
                             eprintln!("DIFF {}\n  inc  ={}\n  fresh={}", k, a, b);
                         }
                     }
+                }
+                if !panicked.is_empty() {
+                    let both = diag_of(&inc) == "panic" && diag_of(&fr) == "panic";
+                    if let Some(l) = st.lsp.take() {
+                        std::mem::forget(l);
+                    }
+                    let mut restarted = new_lsp(&st.proj);
+                    for (file, text) in &st.open {
+                        restarted.compiler_state.db.insert_open_file(st.proj.rel(file), text.clone());
+                    }
+                    st.lsp = Some(restarted);
+                    if both {
+                        // the compiler itself panics on these contents (fresh server too): nothing to compare
+                        return format!("{}\tbothpanic", eff);
+                    }
+                    return format!("{}\tpanic:{}", eff, panicked.join(","));
                 }
                 format!(
                     "{}\t{}",
